@@ -34,6 +34,9 @@ def rebuild_fp(x):
 class Driver:
     Disabled = Disabled
 
+    def __init__(self, alloc_policy="fresh"):
+        self.alloc_policy = alloc_policy      # 'recycle': freed storage identities are handed to the next tuple of the same length
+
     def new_world(self):
         from mc import valloc
         w = World()
@@ -321,14 +324,63 @@ def unit_changes(unit):
     return agg
 
 
+def unit_promotions(unit):
+    """cached fingerprint, then a PROMOTING write into one position (int->float->complex, date->datetime, also NaN):
+    every element's representation may change, the fingerprint must still equal a freshly built vector's"""
+    from datetime import date, datetime
+    from serif import Vector, Table
+    agg = Agg()
+    D = [date(2020, 1, 1), date(2021, 2, 3), date(2022, 3, 4), date(2023, 4, 5)]
+    cases = [([1, 2, 3, 4], 2.5), ([1, 2, 3, 4], 1j), ([0.5, 1.5, 2.5, float("nan")], 2j), (list(D), datetime(2024, 5, 6, 7, 8)),
+             ([1, 2, 3, 4], None), (list(D), None), ([True, False, True, True], None)]
+    for vals, new in cases:
+        for n in (2, 3, 4):
+            for idx in range(n):
+                for through in ("vector", "column-view", "table-cell"):
+                    for prime in (True, False):
+                        agg.evals += 1; agg.transitions += 3; agg.states += 1; agg.nontrivial += 1; agg.compared += 1
+                        case = {"values": vals[:n], "write": [idx, new], "through": through, "fingerprint_cached_before": prime}
+                        try:
+                            if through == "vector":
+                                v = Vector(list(vals[:n])); t = None
+                            else:
+                                t = Table([Vector(list(vals[:n]), name="a"), Vector(list(range(n)), name="b")])
+                                v = t["a"]
+                            if prime:
+                                v.fingerprint()
+                                if t is not None:
+                                    t.fingerprint()
+                            if through == "table-cell":
+                                t[idx, "a"] = new
+                            else:
+                                v[idx] = new
+                            cur = list(v._underlying)
+                            good = v.fingerprint() == Vector(list(cur)).fingerprint()
+                            if t is not None:
+                                good = good and t.fingerprint() == Table([Vector(list(c._underlying)) for c in t._underlying]).fingerprint()
+                        except Exception as e:
+                            agg.violation(V("fingerprint.after-promotion", "raises-" + type(e).__name__, case, None, repr(e)[:80]))
+                            continue
+                        if not good:
+                            agg.violation(V("fingerprint.after-promotion", "stale-after-promoting-write", case))
+                        else:
+                            agg.outcomes["promotion-fingerprint-ok"] += 1
+    return agg
+
+
 def check(ctx):
     agg = Agg()
     depth = ctx.pick(3, 4)
     drv = Driver()
-    explorer.bfs(drv, depth + 1, agg)       # +1: the 'init' event
+    explorer.bfs(drv, depth + 1, agg)       # one level more than 'depth' because the seed consists of the 'init' event only
+    sizes = agg.notes.get("frontier_sizes")
+    explorer.bfs(Driver(alloc_policy="recycle"), depth, agg)      # the same histories with CPython-like identity recycling
+    agg.notes["frontier_sizes"] = {"fresh-identities": sizes, "recycled-identities": agg.notes.get("frontier_sizes")}
     N = ctx.pick(3, 4)
     units = [("chg", n, f) for n in range(1, N + 1) for f in ALPHA]
     for p in core.pmap(unit_changes, units):
+        agg.merge(p)
+    for p in core.pmap(unit_promotions, [("promote",)]):
         agg.merge(p)
     agg.notes["bound"] = f"H: depth<={depth} events after the seed; E: vectors of length<={N} over 9 values"
     return agg
